@@ -9,7 +9,8 @@ Line protocol (stateful; `-` = empty hex):
                                                           `pat seed 0 srclen`, short-read oracle ks
   buffer mode : add <hex> | addp <seed> <start> <len> | get <n> | seek <p> | prot <0|1>
   bio/srw/ssw : read <n|-1> | seek <p> | seekcur <off> | prot <0|1>
-  ice         : feed <blk> | read <n> | seek <p> | prot <0|1>
+  ice         : feed <blk> | fetch <blk> | store | read <n> | seek <p> | prot <0|1>
+                (answers carry one more field: the end-of-stream flag `_stop_stream`)
 
 Answer: `<result> <position> <unread> <remaining> <stored> <has_headroom> <protected> <src consumed>`
 with result `n:<count>` | `d:<digest>` | `f:<0|1>` | `p:<position>`; `ok` for resets.
@@ -31,7 +32,7 @@ inductive DState
   | none
   | buf (s : Buf)
   | world (k : Kind) (w : World) (total : Nat)
-  | ice (w : World) (total : Nat)
+  | ice (w : IWorld) (total : Nat)
 
 def bit (b : Bool) : String := if b then "1" else "0"
 
@@ -81,6 +82,8 @@ def worldOp? : List String → Option WOp
 
 def iceOp? : List String → Option IOp
   | ["feed", k] => k.toNat?.map IOp.feed
+  | ["fetch", k] => k.toNat?.map IOp.fetch
+  | ["store"] => some IOp.store
   | ["read", n] => n.toNat?.map IOp.read
   | ["seek", p] => p.toNat?.map IOp.seek
   | ["prot", b] => (bool? b).map IOp.protect
@@ -96,7 +99,7 @@ def handle (st : DState) (ws : List String) : DState × String :=
     match sz.toNat?, hr.toNat?, bool? pr, sd.toNat?, ln.toNat?, csvNats? ks with
     | some sz, some hr, some pr, some sd, some ln, some ks =>
       let w := World.init sz hr pr (pat sd 0 ln) ks
-      if kd == "ice" then (.ice w ln, "ok")
+      if kd == "ice" then (.ice (IWorld.init sz hr pr (pat sd 0 ln) ks) ln, "ok")
       else match kind? kd with
         | some k => (.world k w ln, "ok")
         | Option.none => (st, "bad-op")
@@ -117,8 +120,8 @@ def handle (st : DState) (ws : List String) : DState × String :=
     | .ice w total =>
       match iceOp? ws with
       | some op =>
-        let r := w.istep op
-        (.ice r.1 total, s!"{r.2.show} {obs r.1.b (total - r.1.src.rest.length)}")
+        let r := w.step op
+        (.ice r.1 total, s!"{r.2.show} {obs r.1.w.b (total - r.1.w.src.rest.length)} {bit r.1.stopped}")
       | Option.none => (st, "bad-op")
 
 end PyatvModel.C17
